@@ -69,6 +69,7 @@ pub mod verif {
     pub use crate::prefs::verif as prefs;
     pub use crate::navigate::verif as navigate;
     pub use crate::braille::verif as braille;
+    pub use crate::interface::verif as interface;
 }
 
 pub mod shim_filesystem; // really just for override_file_for_debugging_rules, but the config seems to throw it off
